@@ -108,7 +108,8 @@ pub fn independent() {
     sym::reach(1);
 }
 
-/// C01-S2: a bounded symbolic sequence of operations on two replicas, then exchange until nothing new arrives:
+/// C01-S2: a bounded symbolic sequence of operations (update, commit + reopen comparison, pull, unstage, delete_object,
+/// stage_full_snapshot, resolve_as, reload) on two replicas, then exchange until nothing new arrives:
 /// both replicas, a replica fed by plain file copy and a replica opened by one reload expose the same state.
 /// params: [k orders, number of operations]
 pub fn converge() {
@@ -116,7 +117,7 @@ pub fn converge() {
     let n = sym::param(1) as usize;
     let (mut a, mut b) = base_pair(doc_with(&["a", "b"], &["x".to_string(), "y".to_string()], "t"));
     for _ in 0..n {
-        match sym::choose(7) {
+        match sym::choose(11) {
             0 => {
                 a.m.update(any_doc(k, 0)).expect("update a");
             }
@@ -124,7 +125,9 @@ pub fn converge() {
                 b.m.update(any_doc(k, 0)).expect("update b");
             }
             2 => {
-                a.m.commit(None).expect("commit a");
+                if a.m.commit(None).expect("commit a").is_some() {
+                    assert!(same_state(&a.reopen(), &a.m), "reopened replica differs after commit");
+                }
             }
             3 => {
                 b.m.commit(None).expect("commit b");
@@ -139,8 +142,26 @@ pub fn converge() {
                     b.pull(&a);
                 }
             }
-            _ => {
+            6 => {
                 a.m.unstage().expect("unstage a");
+            }
+            7 => {
+                a.m.delete_object("a").expect("delete_object");
+            }
+            8 => {
+                a.m.stage_full_snapshot().expect("stage_full_snapshot");
+            }
+            9 => {
+                // resolve the first object in conflict in favour of its winner
+                if let Some(id) = a.m.in_conflict().into_iter().next() {
+                    let w = a.m.get_winner(&id).expect("winner");
+                    a.m.resolve_as(&id, &w).expect("resolve_as");
+                }
+            }
+            _ => {
+                if !a.m.has_staging() {
+                    a.m.reload().expect("reload a");
+                }
             }
         }
     }
